@@ -161,12 +161,31 @@ impl Source for MemSource {
     }
 }
 
+// ------------------------------------------------------------------ ownership ledger (C13)
+
+/// Identity of one value produced by a loader or passed to `get_or_insert`: creation and drop are
+/// recorded in a process-wide ledger, so "dropped exactly once" is observable.
+#[derive(Debug)]
+pub struct Uid(pub u64);
+
+#[derive(Default)]
+pub struct Ledger { pub next: u64, pub created: Vec<u64>, pub dropped: Vec<u64> }
+pub static LEDGER: Mutex<Ledger> = Mutex::new(Ledger { next: 0, created: Vec::new(), dropped: Vec::new() });
+pub fn ledger() -> std::sync::MutexGuard<'static, Ledger> { LEDGER.lock().unwrap_or_else(|e| e.into_inner()) }
+
+impl Uid {
+    pub fn new() -> Uid { let mut l = ledger(); let u = l.next; l.next += 1; l.created.push(u); Uid(u) }
+}
+impl Drop for Uid {
+    fn drop(&mut self) { ledger().dropped.push(self.0); }
+}
+
 // ------------------------------------------------------------------ assets M<E, D>
 
 pub const EXT_TABLE: [&[&str]; 6] = [&[], &[""], &["a"], &["a", "b"], &["a", "b", "c"], &["x", "a"]];
 
-#[derive(Debug, Clone, PartialEq)]
-pub struct M<const E: usize, const D: bool> { pub val: i64, pub ext: String, pub bytes: Vec<u8> }
+#[derive(Debug)]
+pub struct M<const E: usize, const D: bool> { pub val: i64, pub ext: String, pub bytes: Vec<u8>, pub uid: Uid }
 
 pub struct MLoader;
 impl<const E: usize, const D: bool> Loader<M<E, D>> for MLoader {
@@ -175,7 +194,7 @@ impl<const E: usize, const D: bool> Loader<M<E, D>> for MLoader {
         let s = std::str::from_utf8(&content).map_err(|_| bad())?;
         let n = s.strip_prefix("ok:").ok_or_else(bad)?;
         let val = parse_int(n).ok_or_else(bad)?;
-        Ok(M { val, ext: ext.to_string(), bytes: content.to_vec() })
+        Ok(M { val, ext: ext.to_string(), bytes: content.to_vec(), uid: Uid::new() })
     }
 }
 
@@ -191,16 +210,16 @@ impl<const E: usize, const D: bool> Asset for M<E, D> {
     const EXTENSIONS: &'static [&'static str] = EXT_TABLE[E];
     type Loader = MLoader;
     fn default_value(_id: &SharedString, error: BoxedError) -> Result<Self, BoxedError> {
-        if D { Ok(M { val: -1, ext: canon_reason(&*error), bytes: vec![] }) } else { Err(error) }
+        if D { Ok(M { val: -1, ext: canon_reason(&*error), bytes: vec![], uid: Uid::new() }) } else { Err(error) }
     }
 }
 
 // ------------------------------------------------------------------ script compounds
 
-#[derive(Debug, Clone, PartialEq)]
-pub struct S<const K: usize>(pub i64);
-#[derive(Debug, Clone, PartialEq)]
-pub struct N0(pub i64);
+#[derive(Debug)]
+pub struct S<const K: usize>(pub i64, pub Uid);
+#[derive(Debug)]
+pub struct N0(pub i64, pub Uid);
 
 /// loader invocation counter / fault plan for script loaders (global: reloads run on the reloader thread)
 pub static LOADER_FAULTS: Mutex<(usize, BTreeMap<usize, bool>)> = Mutex::new((0, BTreeMap::new()));
@@ -220,13 +239,13 @@ pub trait Canon: Sized + Send + Sync + 'static {
     fn as_int(&self) -> i64;
     fn from_int(_i: i64) -> Option<Self> { None }
 }
-impl<const K: usize> Canon for S<K> { fn canon(&self) -> String { format!("v:{}", self.0) } fn as_int(&self) -> i64 { self.0 } fn from_int(i: i64) -> Option<Self> { Some(S(i)) } }
-impl Canon for N0 { fn canon(&self) -> String { format!("v:{}", self.0) } fn as_int(&self) -> i64 { self.0 } fn from_int(i: i64) -> Option<Self> { Some(N0(i)) } }
+impl<const K: usize> Canon for S<K> { fn canon(&self) -> String { format!("v:{}", self.0) } fn as_int(&self) -> i64 { self.0 } fn from_int(i: i64) -> Option<Self> { Some(S(i, Uid::new())) } }
+impl Canon for N0 { fn canon(&self) -> String { format!("v:{}", self.0) } fn as_int(&self) -> i64 { self.0 } fn from_int(i: i64) -> Option<Self> { Some(N0(i, Uid::new())) } }
 impl Canon for i64 { fn canon(&self) -> String { format!("v:{self}") } fn as_int(&self) -> i64 { *self } fn from_int(i: i64) -> Option<Self> { Some(i) } }
 impl<const E: usize, const D: bool> Canon for M<E, D> {
     fn canon(&self) -> String { format!("m:{}:{}:{}", self.val, hexs(&self.ext), hex(&self.bytes)) }
     fn as_int(&self) -> i64 { self.val }
-    fn from_int(i: i64) -> Option<Self> { Some(M { val: i, ext: String::new(), bytes: vec![] }) }
+    fn from_int(i: i64) -> Option<Self> { Some(M { val: i, ext: String::new(), bytes: vec![], uid: Uid::new() }) }
 }
 fn canon_ids<'a>(it: impl Iterator<Item = &'a SharedString>) -> String {
     format!("ids:{}", it.map(|s| hexs(s)).collect::<Vec<_>>().join(","))
@@ -385,10 +404,50 @@ pub fn run_script(ty: &'static str, cache: AnyCache, id: &SharedString) -> Resul
 }
 
 impl<const K: usize> Compound for S<K> {
-    fn load(cache: AnyCache, id: &SharedString) -> Result<Self, BoxedError> { run_script(["S0", "S1", "S2", "S3"][K.min(3)], cache, id).map(S) }
+    fn load(cache: AnyCache, id: &SharedString) -> Result<Self, BoxedError> { run_script(["S0", "S1", "S2", "S3"][K.min(3)], cache, id).map(|v| S(v, Uid::new())) }
 }
 impl Compound for N0 {
-    fn load(cache: AnyCache, id: &SharedString) -> Result<Self, BoxedError> { run_script("N0", cache, id).map(N0) }
+    fn load(cache: AnyCache, id: &SharedString) -> Result<Self, BoxedError> { run_script("N0", cache, id).map(|v| N0(v, Uid::new())) }
     const HOT_RELOADED: bool = false;
 }
 impl assets_manager::asset::NotHotReloaded for N0 {}
+
+// ------------------------------------------------------------------ value shapes for C13 (sizes / alignments)
+
+/// a 4-byte uid (so that a value can have a size that is not a multiple of 8)
+#[derive(Debug)]
+pub struct Uid32(pub u32);
+impl Uid32 { pub fn new() -> Uid32 { let mut l = ledger(); let u = l.next; l.next += 1; l.created.push(u); Uid32(u as u32) } }
+impl Drop for Uid32 { fn drop(&mut self) { ledger().dropped.push(self.0 as u64); } }
+
+fn read_int(cache: AnyCache, id: &SharedString) -> Result<i64, BoxedError> {
+    let source = cache.raw_source();
+    let content = source.read(id, "s")?;
+    std::str::from_utf8(content.as_ref()).ok().and_then(|t| parse_int(t.trim())).ok_or_else(|| Box::new(CustomErr("parse")) as BoxedError)
+}
+
+/// 12 bytes, align 4 (size ≥ 8 and not a multiple of 8); `b` is the complement of `a` (self-check)
+#[derive(Debug)]
+pub struct P12 { pub uid: Uid32, pub a: u32, pub b: u32 }
+impl Compound for P12 { fn load(c: AnyCache, id: &SharedString) -> Result<Self, BoxedError> { let v = read_int(c, id)? as u32; Ok(P12 { uid: Uid32::new(), a: v, b: !v }) } }
+/// 13 bytes, align 1
+#[derive(Debug)]
+pub struct A13(pub [u8; 13]);
+impl Compound for A13 { fn load(c: AnyCache, id: &SharedString) -> Result<Self, BoxedError> { let v = read_int(c, id)? as u8; Ok(A13([v; 13])) } }
+/// one byte
+#[derive(Debug)]
+pub struct B1(pub u8);
+impl Compound for B1 { fn load(c: AnyCache, id: &SharedString) -> Result<Self, BoxedError> { Ok(B1(read_int(c, id)? as u8)) } }
+/// zero-sized
+#[derive(Debug)]
+pub struct Z;
+impl Compound for Z { fn load(c: AnyCache, id: &SharedString) -> Result<Self, BoxedError> { read_int(c, id)?; Ok(Z) } }
+/// over-aligned
+#[derive(Debug)]
+#[repr(align(64))]
+pub struct O64 { pub uid: Uid, pub v: i64 }
+impl Compound for O64 { fn load(c: AnyCache, id: &SharedString) -> Result<Self, BoxedError> { Ok(O64 { uid: Uid::new(), v: read_int(c, id)? }) } }
+/// heap-owning
+#[derive(Debug)]
+pub struct H { pub uid: Uid, pub s: String }
+impl Compound for H { fn load(c: AnyCache, id: &SharedString) -> Result<Self, BoxedError> { let v = read_int(c, id)?; Ok(H { uid: Uid::new(), s: format!("value-{v}-{}", "x".repeat((v % 40) as usize)) }) } }
